@@ -173,9 +173,15 @@ func (p *calcParser) _recover() bool {
 		save := p._stack
 
 		for len(p._stack) >= 1 {
-			state := p._stack.Peek(0).State
+			// Simulate, on a copy of the state stack, the reductions the parser
+			// would perform with ERROR as the lookahead.
+			sim := make([]int32, len(p._stack))
+			for i := range p._stack {
+				sim[i] = p._stack[i].State
+			}
 
 			for {
+				state := sim[len(sim)-1]
 				action, ok := _Find(_actions, state, int32(ERROR))
 				if !ok {
 					break
@@ -183,8 +189,14 @@ func (p *calcParser) _recover() bool {
 
 				if action < 0 {
 					prod := -action
+					termCount := int(_termCounts[int(prod)])
 					rule := _rules[int(prod)]
-					state, _ = _Find(_goto, state, rule)
+					if termCount >= len(sim) {
+						break
+					}
+					sim = sim[:len(sim)-termCount]
+					state, _ = _Find(_goto, sim[len(sim)-1], rule)
+					sim = append(sim, state)
 					continue
 				}
 
